@@ -76,7 +76,7 @@ def one_case(rep, cs, seed, i, family=None):
         kinds = ["emb", "poly"] if cplx else KINDS
         if rng.random() < 0.2:
             kinds = [rng.choice(kinds)]
-        o = gen.random_opts(rng, kinds=kinds, monotone=monotone, cplx=cplx, heads=rng.random() < 0.25)
+        o = gen.random_opts(rng, kinds=kinds, monotone=monotone, cplx=cplx, heads=rng.random() < 0.25, int_consts=True)
         sc, g = gen.gen_circuit(rng, **o)
     sem = pick_semiring(rng, monotone, cplx)
     fold, opt = rng.choice(evalc.FLAGS)
